@@ -753,18 +753,29 @@ def correspondence(ctx, budget=None):
         mal.append(mutate(rng, rng.choice(lines + mal[:15]), [";", "=", " ", "a", "T", "\t", "é", "İ", "\n", "\r", "="]))
     allp = [(l, True) for l in lines] + [(l, False) for l in mal]
     mo = ctx.model([(21, [l]) for l, _ in allp])
+    nmlsx_err = 0
     for idx, ((l, gen), o) in enumerate(zip(allp, mo)):
         ctx.case(("mlsx-parse", l))
         ctx.traces_impl += 1
-        p, entry = client.parse_mlsx_line(l)
-        mname = str(pathlib.PurePosixPath(sx.txt(o[0])))
-        ment = [(sx.txt(k), sx.txt(v)) for k, v in o[1]]
-        if mname != str(p) or ment != list(entry.items()):
-            ctx.disagree("parse_mlsx_line", l, [mname, ment], [str(p), list(entry.items())])
+        try:
+            p, entry = client.parse_mlsx_line(l)
+            im = ["ok", str(p), list(entry.items())]
+        except (ValueError, KeyError, IndexError) as e:
+            p, entry = None, {}
+            im = ["err", err_tag(e)]
+        if o[0] == -1:
+            mm = ["err", o[1]]
+        else:
+            mm = ["ok", str(pathlib.PurePosixPath(sx.txt(o[1][0]))), [(sx.txt(k), sx.txt(v)) for k, v in o[1][1]]]
+        nmlsx_err += im[0] == "err"
+        if mm != im:
+            ctx.disagree("parse_mlsx_line", l, mm, im)
         if gen:
             name, sz, ct, mt, kind, ex = ents[idx]
             bad = []
-            if str(p) != name:
+            if p is None:
+                bad.append("unparsable")
+            elif str(p) != name:
                 bad.append("name")
             if entry.get("type") != ["file", "dir", "unknown"][kind]:
                 bad.append("type")
@@ -783,6 +794,7 @@ def correspondence(ctx, budget=None):
                                "exists": ex, "line": l, "parsed": [str(p), dict(entry)]})
     ctx.count("mlsx:entries built+parsed", len(ents))
     ctx.count("mlsx:malformed lines", len(mal))
+    ctx.count("mlsx:lines rejected with ValueError (no pathname)", nmlsx_err)
     ctx.sample({"stream": "mlsx", "line": lines[0]})
     xcheck += [(21, [l], o) for (l, _), o in list(zip(allp, mo))[:10]]
 
@@ -924,7 +936,7 @@ def correspondence(ctx, budget=None):
     nglue = 0
     glue_client = aioftp.Client()
     dot_lines_list = ["drwxr-xr-x 2 none none 0 Jan  1 10:00 .", "drwxr-xr-x 2 none none 0 Jan  1 10:00 ..", "drwxr-xr-x 2 none none 0 Jan  1 10:00 ..."]
-    dot_lines_mlsd = ["Type=dir; .", "Type=dir; ..", "Type=cdir; .", "Type=dir; ...", "Type=dir; .a"]
+    dot_lines_mlsd = ["Type=dir; .", "Type=dir; ..", "Type=cdir; .", "Type=dir; ...", "Type=dir; .a", "x=1; .", "x=1; ..", "Type=file;", "Type=file; "]
     plan_cases = []
     for _ in range(600 if thorough else 200):
         k = rng.choice([0, 1, 2, 3, 5, 9])
@@ -978,7 +990,13 @@ def correspondence(ctx, budget=None):
         for _ in range(rng.choice([0, 1, 2])):
             batch.insert(rng.randrange(len(batch) + 1), rng.choice(dot_lines_mlsd + mal[:15]))
         # the model takes PurePosixPath(name) = name (one path component): keep lines whose name pathlib leaves alone
-        batch = [l for l in batch if str(client.parse_mlsx_line(l)[0]) == l.rstrip().partition(" ")[2]]
+        def pathlib_leaves_alone(l):
+            try:
+                return str(client.parse_mlsx_line(l)[0]) == l.rstrip().partition(" ")[2]
+            except ValueError:
+                return True  # no pathname: the parser raises, nothing for pathlib to normalise
+
+        batch = [l for l in batch if pathlib_leaves_alone(l)]
         mlsd_batches.append(batch)
     mo = ctx.model([(32, [b]) for b in mlsd_batches])
     for b, o in zip(mlsd_batches, mo):
@@ -1344,7 +1362,11 @@ def replay(ctx, data):
     if key == "c07-mlsx-roundtrip":
         st = mkstats(r["size"], r["ctime"], r["mtime"], 1, 0) if r["exists"] else None
         line = impl_build_mlsx(server, st, r["kind"], r["name"])
-        p, entry = client.parse_mlsx_line(line)
+        try:
+            p, entry = client.parse_mlsx_line(line)
+        except ValueError as e:
+            print("line:", repr(line), "->", repr(e))
+            return False
         print("line:", repr(line), "->", str(p), dict(entry))
         return str(p) == r["name"] and (not r["exists"] or (entry.get("size") == str(r["size"]) and entry.get("modify") == fmt14(naive(r["mtime"]), "second")))
     if key == "c07-mlsx-time":
